@@ -22,7 +22,9 @@ RULE = ('case i: seeded constant expressions (depth <= 5) over + - * / % compari
         'initialised from out-of-range int constants. Each program is compiled twice: as written, and as its run-time twin in which every '
         'literal and const variable is a non-const local holding the same value. Word sizes {2,3,4}. '
         'oracle: both forms must commit the reference history; a compile-time rejection of the constant '
-        'form is accepted only if the twin ends in a run-time fault. distinct = hash(source, argv, W); '
+        'form is accepted only if the twin ends in a run-time fault or the program contains a division whose '
+        'constant divisor really is zero at this word size (evaluating that sub-expression would fault, even '
+        'where the twin never reaches it). distinct = hash(source, argv, W); '
         'non-trivial = the constant form contains at least one foldable operator and both forms ran.')
 ASSUMPTIONS = ['SVM as calibrated; immediates are wrapped to the word by the assembler',
                'known finding F4 is recognised by an exact model of the defect (folding with unbounded integers): '
@@ -548,6 +550,25 @@ def predict_known_defect(exprs, body_ifs, g, W, mask_byte_cast):
     return bytes(out)
 
 
+def const_zero_divisor(exprs, g, W):
+    """Is there a division or modulo whose divisor is a constant expression that really is zero at this word
+    size (or itself faults)?  Evaluating that constant sub-expression at run time would fault, so rejecting the
+    program at compile time is what the property allows - also where the run-time twin never reaches it
+    (`false and 1 / 0 > 0`, `if (false) { 1 % 0 }`)."""
+    decls = [decl(t, name, lit, True) for name, (t, lit, _glob) in g.consts.items()]
+    for _, e in exprs:
+        for node in lang.walk(e):
+            if node and node[0] == 'bin' and node[1] in ('/', '%') and all_const(node[3], g):
+                probe = prog([], [func('empty', '@is_you', [], *decls, write(is_(node[3], 'int')))])
+                try:
+                    r = refmodel.run(probe, [], W)
+                except Exception:   # noqa: BLE001
+                    continue
+                if r.outcome == 'ERROR' or (r.outcome == 'WIN' and r.output() == b'0'):
+                    return True
+    return False
+
+
 def run_form(p, argv, W):
     src = render.program(p)
     b = build(src, W=W, stack=300, argv=argv)
@@ -580,6 +601,10 @@ def judge(const_form, twin, argv, exprs, g, W):
     if cb.error_kind == 'rejected':
         if ref.outcome == 'ERROR':
             info['accepted_rejection'] = True
+            return out, info
+        if exprs and const_zero_divisor(exprs, g, W):
+            info['accepted_rejection'] = True
+            info['unreached_zero_divisor'] = True
             return out, info
         pred = predict_known_defect(exprs, ifs, g, W, True) if exprs else None
         if pred == REJECT:
@@ -643,7 +668,9 @@ def case(seed, idx, tier):
     res['outcomes']['ref:' + info['ref']] = 1
     if info.get('discard'):
         res['outcomes']['discarded'] = 1
-    if info.get('accepted_rejection'):
+    if info.get('unreached_zero_divisor'):
+        res['outcomes']['rejected_for_a_constant_zero_divisor_the_twin_never_reaches'] = 1
+    elif info.get('accepted_rejection'):
         res['outcomes']['rejected_and_twin_faults'] = 1
     for r in (info.get('cr'), info.get('tr')):
         if r is not None:
